@@ -1,0 +1,66 @@
+//go:build verif
+// +build verif
+
+package shard
+
+// Machine-checked contracts for the shard client (read by /verif/engine, see /verif/DESIGN.md).
+// This file contains comments only and is excluded from every normal build by the tag "verif".
+
+/*@
+// ---------- ghost view of one sidecar as seen through the shard client ----------
+// requests issued to the sidecar, by kind
+ghost field Shard.gGets int
+ghost field Shard.gPostCfg int
+ghost field Shard.gPostTargets int
+ghost field Shard.gPostExtra int
+// the sidecar's current target list (hashes); replaced atomically by a successful POST of targets
+ghost field Shard.gList set[uint64]
+// the coordinator-side shardInfo built for this shard in the current cycle
+ghost field Shard.gInfo ref
+
+pred sameRequests(r) = r.gGets == old(r.gGets) && r.gPostCfg == old(r.gPostCfg) && r.gPostTargets == old(r.gPostTargets) && r.gPostExtra == old(r.gPostExtra)
+
+contract Shard.TargetStatus
+  requires r != nil
+  ensures r.gGets == old(r.gGets) + 1 && r.gPostCfg == old(r.gPostCfg) && r.gPostTargets == old(r.gPostTargets) && r.gPostExtra == old(r.gPostExtra)
+  ensures r.gList == old(r.gList)
+  ensures result0 != nil && fresh(result0) && (forall h, st in result0 :: wfStatus(st) && fresh(st))
+  ensures result1 == nil ==> keys(result0) == r.gList
+  modifies Shard.scraping at {r}, Shard.gGets at {r}, target.ScrapeStatus.* at {}, mapof(Shard.scraping) at {}
+
+contract Shard.RuntimeInfo
+  requires r != nil
+  ensures r.gGets == old(r.gGets) + 1 && r.gPostCfg == old(r.gPostCfg) && r.gPostTargets == old(r.gPostTargets) && r.gPostExtra == old(r.gPostExtra)
+  ensures result0 != nil && fresh(result0)
+  ensures result1 == nil ==> result0.HeadSeries >= 0 && result0.ProcessSeries >= 0
+  modifies Shard.gGets at {r}, RuntimeInfo.* at {}
+
+contract Shard.UpdateConfig
+  requires r != nil
+  ensures r.gPostCfg == old(r.gPostCfg) + 1 && r.gGets == old(r.gGets) && r.gPostTargets == old(r.gPostTargets) && r.gPostExtra == old(r.gPostExtra)
+  modifies Shard.gPostCfg at {r}
+
+contract Shard.UpdateExtraConfig
+  requires r != nil
+  ensures r.gPostExtra == old(r.gPostExtra) + 1 && r.gGets == old(r.gGets) && r.gPostTargets == old(r.gPostTargets) && r.gPostCfg == old(r.gPostCfg)
+  modifies Shard.gPostExtra at {r}
+
+contract Shard.UpdateTarget
+  requires r != nil && request != nil
+  ensures r.gPostTargets >= old(r.gPostTargets) && r.gPostTargets <= old(r.gPostTargets) + 1
+  ensures r.gGets == old(r.gGets) && r.gPostCfg == old(r.gPostCfg) && r.gPostExtra == old(r.gPostExtra)
+  modifies Shard.gPostTargets at {r}, Shard.gList at {r}
+
+// ---------- shard managers (assumed: implemented by the kubernetes / static managers) ----------
+contract interface Manager.Shards()
+  ensures result1 == nil ==> fresh(result0) && (forall s in result0 :: s != nil && fresh(s) && s.gInfo == nil)
+  ensures result1 == nil ==> (forall a in 0..len(result0) :: forall b in 0..len(result0) :: a != b ==> result0[a] != result0[b])
+  modifies Shard.* at {}
+
+contract interface Manager.ChangeScale(expReplicate)
+  modifies nothing
+
+contract interface ReplicasManager.Replicas()
+  ensures result1 == nil ==> (forall m in result0 :: m != nil)
+  modifies nothing
+@*/
